@@ -394,6 +394,25 @@ def variants(doc):
                     al = get(d3, ap)
                     al[ai] = ("TRY", [al[ai]], [("T", "<after-handler-%d>" % level)])
                     yield "%% try around ancestor %d levels up (%s[%d]); %s at %s[%d]" % (level + 1, "/".join(map(str, ap)), ai, kind[0], "/".join(map(str, path)), i), d3, None
+    # raising iterable expression of a % for (the loop may use `loop`, so Mako wraps it)
+    for path, anc in lists:
+        lst = get(doc, path)
+        for i, n in enumerate(lst):
+            if n[0] == "FOR":
+                d6 = copy.deepcopy(doc)
+                node = list(get(d6, path)[i])
+                node = node[:4] + [True]
+                get(d6, path)[i] = tuple(node)
+                yield "no handler; raising iterable of %% for at %s[%d]" % ("/".join(map(str, path)), i), d6, None
+                d7 = copy.deepcopy(d6)
+                l7 = get(d7, path)
+                l7[i] = ("TRY", [l7[i]], [("T", "<after-handler>")])
+                yield "%% try around a %% for whose iterable raises at %s[%d]" % ("/".join(map(str, path)), i), d7, None
+                for level, (ap, ai) in enumerate(reversed(anc)):
+                    d8 = copy.deepcopy(d6)
+                    al = get(d8, ap)
+                    al[ai] = ("TRY", [al[ai]], [("T", "<after-handler-%d>" % level)])
+                    yield "%% try around ancestor %d levels up; raising iterable of %% for at %s[%d]" % (level + 1, "/".join(map(str, path)), i), d8, None
     # raising argument expression
     for path, anc in lists:
         lst = get(doc, path)
